@@ -79,7 +79,9 @@ class SourceRef:
         except OSError:
             return 0, 0
 
-        lines = src.splitlines()
+        # Python numbers source lines by "\n" only; str.splitlines() would also split at form
+        # feeds, "\x1c".."\x1e", "\x85", "\u2028" and "\u2029", shifting every later line.
+        lines = src.split("\n")
         if lineno <= len(lines):
             offset = 0
             for i in range(lineno - 1):
